@@ -41,5 +41,37 @@ i = blk.rindex("    return weight\n")
 emit('C05a', blk[:i] + ins2 + blk[i + len("    return weight\n"):])
 assert blk.count("eps_style='where'") == 1
 emit('C09b', blk.replace("eps_style='where'", "eps_style='max'"))
+
+# ---- patches touching ComplexAngularCentralGaussian.from_covariance (text changed by fix e09c314)
+p2 = wt + '/pb_bss/distribution/complex_angular_central_gaussian.py'
+orig2 = open(p2).read()
+
+def emit2(seed, new):
+    assert new != orig2, seed
+    open(p2, 'w').write(new)
+    d = subprocess.run(['git', '-C', wt, 'diff', '--', 'pb_bss'], capture_output=True, text=True).stdout
+    open(f'/verif/seeded/{seed}/patch.diff', 'w').write(d)
+    open(p2, 'w').write(orig2)
+
+# C09a: eigenvalue branch floors relative to the largest eigenvalue instead of the absolute floor
+old = """            eigenvals = np.maximum(
+                eigenvals,
+                eigenvalue_floor,
+            )
+"""
+new = """            # The flooring is relative to the largest eigenvalue (which is one
+            # after the eigenvalue normalization).
+            eigenvals = np.maximum(
+                eigenvals,
+                np.amax(eigenvals, axis=-1, keepdims=True) * eigenvalue_floor,
+            )
+"""
+assert orig2.count(old) == 1
+emit2('C09a', orig2.replace(old, new))
+# C06a: relative floor uses the maximum over the whole stack
+old = "            max_eigenval = np.amax(eigenvals, axis=-1, keepdims=True)\n"
+new = "            # Relative flooring with respect to the largest eigenvalue.\n            max_eigenval = np.amax(eigenvals)\n"
+assert orig2.count(old) == 1
+emit2('C06a', orig2.replace(old, new))
 subprocess.run(['git', '-C', '/repo', 'worktree', 'remove', '--force', wt], check=True)
-print('re-adapted C02a C05a C09b against', subprocess.run(['git', '-C', '/repo', 'rev-parse', '--short', 'HEAD'], capture_output=True, text=True).stdout.strip())
+print('re-adapted C02a C05a C09b C09a C06a against', subprocess.run(['git', '-C', '/repo', 'rev-parse', '--short', 'HEAD'], capture_output=True, text=True).stdout.strip())
